@@ -31,6 +31,8 @@ type RepoReq struct {
 	Off, Len byte
 	CC       byte
 	NthGet   int
+	// AddTS, EraseTS: the timestamps reported (info requests only)
+	AddTS, EraseTS uint32
 }
 
 // Repo is a stateful, versioned SDR repository device (IPMI v2.0 section 33).
@@ -131,7 +133,7 @@ func (r *Repo) Handle(ev *Event) (byte, []byte, bool) {
 		if r.OpSupportSet {
 			o[13] = r.OpSupport
 		}
-		r.Log = append(r.Log, RepoReq{Kind: "info", Version: r.Version, Resv: r.Resv})
+		r.Log = append(r.Log, RepoReq{Kind: "info", Version: r.Version, Resv: r.Resv, AddTS: r.AddTS, EraseTS: r.EraseTS})
 		return 0, o, true
 	case 0x22:
 		r.Resv++
